@@ -45,7 +45,7 @@ def plan(tier, seed):
     rule = ('every integer of every hybrid-36 field of width w is produced in encoding order by enumerating the '
             'language (decimal, then [A-Z][0-9A-Z]^(w-1), then [a-z][0-9a-z]^(w-1)); decode(field) must equal its '
             'rank-derived value, raw, left-padded and right-padded; every string up to the stated length over the '
-            'stated alphabets must raise ValueError unless it is in the language; non-trivial = distinct valid '
+            'stated alphabets must raise ValueError unless it is in the language; serial numbers: 15+ renumbering schemes (hybrid-36, descending, duplicate, negative, holes at residue boundaries, steps, restart per model ...) on peptides, a ligand site, alt-loc and multi-model inputs incl. ions and ligands present in several conformations; malformed serial fields; dipeptides with kept hydrogens numbered from every start in -25..5 and 99990; non-trivial = distinct valid '
             'field values plus distinct malformed strings (all enumerated strings are distinct)')
     return dict(shards=shards, rule=rule, exhaustive=True,
                 bounds=dict(widths=list(widths), malformed_full_alphabet_len=3,
